@@ -348,8 +348,10 @@ def uiHb (c : Codes) (req : List (String × Json)) : M Out :=
 /-! ### dispatch (`__internal_handle_request`) -/
 def errReply (code : Int) : Json := .obj [("errorcode", .int code)]
 
+/-- `output[ERROR_CODE_KEY] = result` (overwrites the key if the payload had it) -/
 def finish (o : Out) : Json :=
-  if o.1 < 0 then errReply o.1 else .obj (o.2 ++ [("errorcode", .int o.1)])
+  if o.1 < 0 then errReply o.1
+  else .obj (o.2.filter (fun kv => !(kv.1 == "errorcode")) ++ [("errorcode", .int o.1)])
 
 def handleRequest (m : Mode) (hs : Hashes) (req : Json) : M Json :=
   let c := codes m
@@ -423,6 +425,17 @@ def handleLine (m : Mode) (hs : Hashes) (p : Parsed) : M LineOut :=
     | .error .notImplemented => pure ⟨.obj [], false, some .notImplemented⟩
     | .error .protoError => pure ⟨errReply c.unknown, true, some .protoError⟩
     | .error e => pure ⟨.obj [], true, some e⟩
+
+/-- one manager lifetime: lines are handled one after the other until a shutdown is requested
+    (`serve_forever` + `shutdown()`); the replies written so far are returned -/
+def serve (m : Mode) (hs : Hashes) : List Parsed → M (List LineOut)
+  | [] => pure []
+  | p :: ps => do
+    let lo ← handleLine m hs p
+    if lo.shutdown then pure [lo]
+    else do
+      let rest ← serve m hs ps
+      pure (lo :: rest)
 
 end Ledger
 end PowHsm
